@@ -139,6 +139,9 @@ pub enum Driver {
     /// like UntilEnd, but a `None` while the source still has bytes is followed by another `next()`
     /// (streaming use with temporary EOF)
     Streaming { extra: usize },
+    /// streaming use as the async wrapper does it: `next()` on through temporary EOFs until `None` with the
+    /// source exhausted, then `emit_master_end_when_eof(true)`, then `next()` until `None`
+    StreamingThenClose,
 }
 
 impl Driver {
@@ -147,6 +150,7 @@ impl Driver {
             Driver::UntilEnd { extra } => json!({"until_end": extra}),
             Driver::Recovering { max_errors, extra } => json!({"recovering": max_errors, "extra": extra}),
             Driver::Streaming { extra } => json!({"streaming": extra}),
+            Driver::StreamingThenClose => json!({"streaming_then_close": true}),
             Driver::Script(ops) => json!({"script": ops.iter().map(|o| o.to_s()).collect::<Vec<_>>().join("")}),
         }
     }
@@ -155,6 +159,8 @@ impl Driver {
             Ok(Driver::UntilEnd { extra: e.as_u64().ok_or("until_end")? as usize })
         } else if let Some(e) = j.get("recovering") {
             Ok(Driver::Recovering { max_errors: e.as_u64().ok_or("recovering")? as usize, extra: j.get("extra").and_then(|v| v.as_u64()).unwrap_or(0) as usize })
+        } else if j.get("streaming_then_close").is_some() {
+            Ok(Driver::StreamingThenClose)
         } else if let Some(e) = j.get("streaming") {
             Ok(Driver::Streaming { extra: e.as_u64().ok_or("streaming")? as usize })
         } else if let Some(s) = j.get("script").and_then(|v| v.as_str()) {
@@ -220,7 +226,7 @@ impl RTrace {
         for e in &self.evs {
             match e {
                 Ev::Tag(t, o) => v.push((t.clone(), *o)),
-                Ev::None | Ev::RecoverOk => {}
+                Ev::None | Ev::RecoverOk | Ev::Cfg => {}
                 _ => break,
             }
         }
@@ -449,6 +455,27 @@ pub fn run_reader_t<T: Spec>(s: &ReaderSetup) -> RTrace {
                         break;
                     }
                     extra_left -= 1;
+                }
+            }
+        }
+        Driver::StreamingThenClose => {
+            let mut closing = false;
+            #[allow(clippy::never_loop)]
+            loop {
+                let ev = do_next(&mut it);
+                let is_none = matches!(ev, Ev::None);
+                let stop = !matches!(ev, Ev::Tag(..) | Ev::None);
+                push!(ev);
+                if stop {
+                    break;
+                }
+                if is_none && it.get_ref().ended {
+                    if closing {
+                        break;
+                    }
+                    closing = true;
+                    it.emit_master_end_when_eof(true);
+                    push!(Ev::Cfg);
                 }
             }
         }
